@@ -132,7 +132,9 @@ def accRowInts (cfg : Cfg) (b : DBuf) (src : List Char) (i : Nat) : List Int :=
 
 def hasAccPanic (cfg : Cfg) (b : DBuf) (i : Nat) : Bool :=
   let p (x : Acc Nat) : Bool := match x with | .error (.panic _) => true | _ => false
-  p (b.startLine cfg i) || p (b.startColumn cfg i) || p (b.endLine cfg i) || p (b.endColumn cfg i)
+  -- `get_token_raw_text`: `debug_assert!(text_range.start <= text_range.end, "Token start is after end")`
+  let rawAssert : Bool := cfg.debug && (match b.startByte i, b.endByte i with | .ok x, .ok y => decide (x > y) | _, _ => false)
+  p (b.startLine cfg i) || p (b.startColumn cfg i) || p (b.endLine cfg i) || p (b.endColumn cfg i) || rawAssert
 
 def rowInts (r : DBuf.Row) : List Int :=
   ([r.chan.toNat, r.ty.toNat, r.index, r.start, r.stop, r.line, r.col, r.endLine, r.endCol] : List Int) ++ payloadInts r.payload
